@@ -465,5 +465,190 @@ theorem hash56_eq {P : Prims} {H : Hashes} (hp : PrimsAgree P H) (hw : H.WF) (le
   · rw [if_pos h6, if_pos h6, revision6Kdf_eq hp hw pw salt u hpw hu]
   · rw [if_neg h6, if_neg h6, hp.sha256]
 
-end Crypt
+/-! ## helper lemmas of `Props/C06` -/
 
+theorem ite_isEmpty_of_length_pos {α : Type} (l : Bytes) (h : 0 < l.length) (a b : α)
+    [inst : Decidable (l.isEmpty = true)] : (@ite α (l.isEmpty = true) inst a b) = b := by
+  have hn : ¬ (l.isEmpty = true) := by
+    cases l with
+    | nil => simp at h
+    | cons _ _ => simp
+  rw [if_neg hn]
+
+theorem rc4_roundtrip_aux (okey data : Bytes) (hv : validKey okey) :
+    (if (rc4 okey data).isEmpty = true then Out.ok (rc4 okey data) else rc4Encrypt okey (rc4 okey data)) = .ok data := by
+  rw [rc4Encrypt_eq hv, rc4_rc4]
+  cases data with
+  | nil =>
+    have : rc4 okey [] = [] := List.eq_nil_of_length_eq_zero (by rw [rc4_length]; rfl)
+    rw [this]; rfl
+  | cons x xs => exact ite_isEmpty_of_length_pos _ (by rw [rc4_length]; simp) _ _
+
+theorem decrypt_v2 (P : Prims) (d : Decoder) (id gen : Nat) (data : Bytes) (h : ¬ Exempt d id gen) (hm : d.method = .v2) :
+    decrypt P d id gen data =
+      if data.isEmpty then .ok data else
+      d.keyOf.bind fun k => (P.md5 (k ++ idBytes id ++ genBytes gen)).bind fun h =>
+          rc4Encrypt (h.take (min (k.length + 5) 16)) data := by
+  unfold Exempt at h
+  have h1 : ¬ d.encryptRef = some (id, gen) := fun e => h (Or.inl e)
+  have h2 : ¬ ((!d.encryptMetadata) = true ∧ d.metadataRef = some (id, gen)) := by
+    intro ⟨a, b⟩; exact h (Or.inr ⟨by simpa using a, b⟩)
+  unfold decrypt
+  rw [if_neg h1, if_neg h2, hm]
+
+theorem decrypt_aesv2 (P : Prims) (d : Decoder) (id gen : Nat) (data : Bytes) (h : ¬ Exempt d id gen) (hm : d.method = .aesv2) :
+    decrypt P d id gen data =
+      if data.isEmpty then .ok data else
+      d.keyOf.bind fun k => (P.md5 (k ++ idBytes id ++ genBytes gen ++ sAlT)).bind fun h =>
+          if data.length < 16 then .err
+          else cbcDecryptPkcs7 P 16 (h.take (min (min d.keySize 16 + 5) 16)) (data.take 16) (data.drop 16) := by
+  unfold Exempt at h
+  have h1 : ¬ d.encryptRef = some (id, gen) := fun e => h (Or.inl e)
+  have h2 : ¬ ((!d.encryptMetadata) = true ∧ d.metadataRef = some (id, gen)) := by
+    intro ⟨a, b⟩; exact h (Or.inr ⟨by simpa using a, b⟩)
+  unfold decrypt
+  rw [if_neg h1, if_neg h2, hm]
+
+theorem decrypt_aesv3 (P : Prims) (d : Decoder) (id gen : Nat) (data : Bytes) (h : ¬ Exempt d id gen) (hm : d.method = .aesv3) :
+    decrypt P d id gen data =
+      if data.isEmpty then .ok data else
+      if data.length < 16 then .err else cbcDecryptPkcs7 P 32 d.key (data.take 16) (data.drop 16) := by
+  unfold Exempt at h
+  have h1 : ¬ d.encryptRef = some (id, gen) := fun e => h (Or.inl e)
+  have h2 : ¬ ((!d.encryptMetadata) = true ∧ d.metadataRef = some (id, gen)) := by
+    intro ⟨a, b⟩; exact h (Or.inr ⟨by simpa using a, b⟩)
+  unfold decrypt
+  rw [if_neg h1, if_neg h2, hm]
+
+/-- the CBC + PKCS#7 part shared by AESV2 and AESV3 -/
+theorem cbcDecryptPkcs7_encrypt {P : Prims} {H : Hashes} (hp : PrimsAgree P H) (hw : H.WF) (klen : Nat) (key iv data : Bytes)
+    (hkl : key.length = klen) (hk : klen = 16 ∨ klen = 32) (hiv : iv.length = 16) :
+    cbcDecryptPkcs7 P klen key iv (cbcEnc (H.aesE key) ((pkcs7Pad data).length / 16) iv (pkcs7Pad data)) = .ok data := by
+  have ⟨hmod, _⟩ := pkcs7Pad_length data
+  have hlen : (pkcs7Pad data).length = 16 * ((pkcs7Pad data).length / 16) := by omega
+  have hE : ∀ b, b.length = 16 → (H.aesE key b).length = 16 := hw.aesE_len key
+  have hD : ∀ b, b.length = 16 → H.aesD key (H.aesE key b) = b := fun b hb => hw.aesD_E key b (by omega) hb
+  have hcl := cbcEnc_length hE _ iv (pkcs7Pad data) hiv hlen
+  unfold cbcDecryptPkcs7
+  rw [if_neg (by omega), if_neg (by omega), cbcDecryptBlocks_eq hp, Out.bind_ok, hcl]
+  rw [show 16 * ((pkcs7Pad data).length / 16) / 16 = (pkcs7Pad data).length / 16 by omega]
+  rw [cbcDec_cbcEnc hE hD _ iv _ hiv hlen, pkcs7Unpad_pad]
+
+theorem authUser_eq (H : Hashes) (r n : Nat) (o u : Bytes) (p : Int) (id : Bytes) (em : Bool) (pw : Bytes) :
+    authUser H r n o u p id em pw =
+      if UCheck H r u id ((alg2Digest H r n o p id em pw).take n) then some (alg2Digest H r n o p id em pw) else none := by
+  unfold authUser UCheck
+  by_cases h2 : r = 2 <;> simp [h2]
+
+theorem ucheck_written {H : Hashes} (hw : H.WF) {d : CryptDict} {id0 : Bytes} {n : Nat} {userPw ownerPw tail : Bytes}
+    (w : WrittenRc4 H d id0 n userPw ownerPw tail) :
+    UCheck H d.r d.u id0 ((alg2Digest H d.r n d.o d.p id0 d.encryptMetadata userPw).take n) := by
+  unfold UCheck
+  rw [w.u]
+  unfold alg2Key makeU
+  by_cases h2 : d.r = 2
+  · simp [h2]
+  · simp only [if_neg h2, List.append_nil]
+    rw [List.take_left']
+    rw [rc4Chain_length, hw.md5_len]
+
+theorem alg2Digest_pad32 (H : Hashes) (r n : Nat) (o : Bytes) (p : Int) (id0 : Bytes) (em : Bool) (pw : Bytes) :
+    alg2Digest H r n o p id0 em (pad32 pw) = alg2Digest H r n o p id0 em pw := by
+  unfold alg2Digest; rw [pad32_idem]
+
+theorem authenticate_some {H : Hashes} (hw : H.WF) (r n : Nat) (o u : Bytes) (p : Int) (id0 : Bytes) (em : Bool) (pw dg : Bytes)
+    (ha : authenticate H r n o u p id0 em pw = some dg) : dg.length = 16 ∧ UCheck H r u id0 (dg.take n) := by
+  unfold authenticate at ha
+  rw [authUser_eq] at ha
+  by_cases h1 : UCheck H r u id0 ((alg2Digest H r n o p id0 em pw).take n)
+  · rw [if_pos h1] at ha
+    injection ha with ha; subst ha
+    exact ⟨alg2Digest_length hw .., h1⟩
+  · rw [if_neg h1] at ha
+    simp only [authOwner] at ha
+    rw [authUser_eq] at ha
+    generalize rc4Chain (alg3Key H r n pw) (if r ≥ 3 then (List.range 20).reverse else [0]) o = upw at ha
+    by_cases h2 : UCheck H r u id0 ((alg2Digest H r n o p id0 em upw).take n)
+    · rw [if_pos h2] at ha
+      injection ha with ha; subst ha
+      exact ⟨alg2Digest_length hw .., h2⟩
+    · rw [if_neg h2] at ha; cases ha
+
+theorem loop2B_length {H : Hashes} (hw : H.WF) (pw u : Bytes) (f : Nat) :
+    ∀ (i : Nat) (k x : Bytes), loop2B H pw u f i k = some x → x.length = 32 := by
+  induction f with
+  | zero => intro i k x h; cases h
+  | succ f ih =>
+    intro i k x h
+    simp only [loop2B] at h
+    have hk : KLen (round2B H pw u k).1 := by
+      unfold round2B KLen; simp only []
+      split
+      · exact Or.inl (hw.sha256_len _)
+      · split
+        · exact Or.inr (Or.inl (hw.sha384_len _))
+        · exact Or.inr (Or.inr (hw.sha512_len _))
+    generalize round2B H pw u k = r at h hk
+    obtain ⟨k', l⟩ := r
+    simp only [] at h hk
+    split at h
+    · injection h with h; subst h; rw [List.length_take]; unfold KLen at hk; omega
+    · exact ih _ _ _ h
+
+theorem hash56_length {H : Hashes} (hw : H.WF) (r : Nat) (pw salt u : Bytes) : (StdSec.hash56 H r pw salt u).length = 32 := by
+  unfold StdSec.hash56
+  split
+  · unfold hash2B
+    have hs := loop2B_isSome H pw u 288 0 (H.sha256 (pw ++ salt ++ u)) (by decide) (by decide)
+    cases hh : loop2B H pw u 288 0 (H.sha256 (pw ++ salt ++ u)) with
+    | none => rw [hh] at hs; cases hs
+    | some x => exact loop2B_length hw pw u 288 0 _ x hh
+  · exact hw.sha256_len _
+
+theorem unwrap_wrap {H : Hashes} (hw : H.WF) (ik fileKey : Bytes) (hik : ik.length = 32) (hk : fileKey.length = 32) :
+    cbcDec (H.aesD ik) 2 zeroIV (cbcEnc (H.aesE ik) 2 zeroIV fileKey) = fileKey :=
+  cbcDec_cbcEnc (hw.aesE_len ik) (fun b hb => hw.aesD_E ik b (Or.inr hik) hb) 2 zeroIV fileKey (by simp [zeroIV]) (by omega)
+
+theorem makeU56_parts {H : Hashes} (hw : H.WF) (r : Nat) (p vs ks : Bytes) (hvs : vs.length = 8) (hks : ks.length = 8) :
+    (makeU56 H r p vs ks).length = 48 ∧ (makeU56 H r p vs ks).take 32 = StdSec.hash56 H r p vs [] ∧
+    ((makeU56 H r p vs ks).drop 32).take 8 = vs ∧ ((makeU56 H r p vs ks).drop 40).take 8 = ks := by
+  have hl := hash56_length hw r p vs []
+  unfold makeU56
+  refine ⟨by simp [hl, hvs, hks], ?_, ?_, ?_⟩
+  · rw [List.append_assoc, List.take_left' hl]
+  · rw [List.append_assoc, List.drop_left' hl, List.take_left' hvs]
+  · rw [show 40 = (StdSec.hash56 H r p vs [] ++ vs).length by simp [hl, hvs], List.drop_left, List.take_of_length_le (by omega)]
+
+mutual
+theorem decryptVal_enc {P : Prims} {R : Bytes → Bytes → Prop} (d : Decoder) (id gen : Nat)
+    (hR : ∀ p s, R p s → decrypt P d id gen s = .ok p) :
+    ∀ (plain stored : Val), EncVal R plain stored → decryptVal P (some d) id gen stored = .ok plain
+  | .str p, .str s, h => by simp only [EncVal] at h; simp [decryptVal, ctxDecrypt, hR p s h]
+  | .atom t, .atom t', h => by simp only [EncVal] at h; simp [decryptVal, h]
+  | .arr ps, .arr ss, h => by
+    simp only [EncVal] at h; simp [decryptVal, decryptVals_enc d id gen hR ps ss h]
+  | .dict ps, .dict ss, h => by
+    simp only [EncVal] at h; simp [decryptVal, decryptKvs_enc d id gen hR ps ss h]
+  | .str _, .atom _, h | .str _, .arr _, h | .str _, .dict _, h
+  | .atom _, .str _, h | .atom _, .arr _, h | .atom _, .dict _, h
+  | .arr _, .str _, h | .arr _, .atom _, h | .arr _, .dict _, h
+  | .dict _, .str _, h | .dict _, .atom _, h | .dict _, .arr _, h => by simp [EncVal] at h
+theorem decryptVals_enc {P : Prims} {R : Bytes → Bytes → Prop} (d : Decoder) (id gen : Nat)
+    (hR : ∀ p s, R p s → decrypt P d id gen s = .ok p) :
+    ∀ (plain stored : List Val), EncVals R plain stored → decryptVals P (some d) id gen stored = .ok plain
+  | [], [], _ => by simp [decryptVals]
+  | p :: ps, s :: ss, h => by
+    simp only [EncVals] at h
+    simp [decryptVals, decryptVal_enc d id gen hR p s h.1, decryptVals_enc d id gen hR ps ss h.2]
+  | [], _ :: _, h | _ :: _, [], h => by simp [EncVals] at h
+theorem decryptKvs_enc {P : Prims} {R : Bytes → Bytes → Prop} (d : Decoder) (id gen : Nat)
+    (hR : ∀ p s, R p s → decrypt P d id gen s = .ok p) :
+    ∀ (plain stored : List (Bytes × Val)), EncKvs R plain stored → decryptKvs P (some d) id gen stored = .ok plain
+  | [], [], _ => by simp [decryptKvs]
+  | (k, p) :: ps, (k', s) :: ss, h => by
+    simp only [EncKvs] at h
+    simp [decryptKvs, decryptVal_enc d id gen hR p s h.2.1, decryptKvs_enc d id gen hR ps ss h.2.2, h.1]
+  | [], _ :: _, h | _ :: _, [], h => by simp [EncKvs] at h
+end
+
+end Crypt
